@@ -209,6 +209,18 @@ def gen_lit(t, D, scope, f):
     return gen_atom(t, D, scope)
 
 
+def shift_constants(x, by):
+    """the same condition with every numeric constant moved a little (a sibling that differs only beyond the 4th / 2nd
+    decimal: printed forms that round agree)"""
+    if x[0] == "cmp" and isinstance(x[3], (int, float)):
+        return ("cmp", x[1], x[2], x[3] + by)
+    if x[0] in ("and", "or"):
+        return (x[0], [shift_constants(y, by) for y in x[1]])
+    if x[0] == "forall":
+        return ("forall", x[1], x[2], shift_constants(x[3], by))
+    return x
+
+
 def gen_conj(t, D, scope, f, top=False, depth=2):
     items = []
     # nested (or / forall) bodies are stored as Precondition objects whose hash/dedup goes through the simplifying
@@ -218,14 +230,7 @@ def gen_conj(t, D, scope, f, top=False, depth=2):
     fn = f if f.get("nested_numeric") == "full" else dict(f, numeric_simple=True) if f.get("nested_numeric") else dict(f, numeric=False)
 
     def near_dup(d):
-        """the same disjunction with every numeric constant moved by 3e-5 (a sibling that differs beyond 4 decimals)"""
-        def sh(x):
-            if x[0] == "cmp":
-                return ("cmp", x[1], x[2], x[3] + 0.00003)
-            if x[0] in ("and", "or"):
-                return (x[0], [sh(y) for y in x[1]])
-            return x
-        return sh(d)
+        return shift_constants(d, [0.00003, 0.003][t.draw(2)])
     def lits(sc, n):
         out = []
         for _ in range(n):
@@ -342,6 +347,11 @@ def gen_effects(t, D, params, f):
             e = gen_simple_effects(t, D, params, f, 1 + t.draw(2))
             if c and e:
                 effs.append(("when", ("and", c), e) + (("bare",) if bare else ()))
+                if f.get("tiny_offsets") and "'cmp'" in repr(c) and t.draw(3) == 0:
+                    # a sibling effect with the same body whose condition differs only in a late decimal of a constant
+                    c2 = shift_constants(("and", c), [0.00003, 0.003][t.draw(2)])
+                    if c2 != ("and", c):
+                        effs.insert(len(effs) - t.draw(2), ("when", c2, list(e)) + (("bare",) if bare else ()))
     if f["forall_eff"]:
         for _ in range(t.draw(3)):
             ty = t.pick(list(D["types"]))
@@ -411,7 +421,7 @@ def gen_problem(t, D, feat=None, agents=0):
             if hard and t.chance(1, 3):
                 fl[(fn,) + combo] = HARD_NUMBERS[t.draw(len(HARD_NUMBERS))]
             elif thresholds and t.chance(1, 3):
-                fl[(fn,) + combo] = thresholds[t.draw(len(thresholds))] + [0.00002, -0.00002, 0.0, 0.00002][t.draw(4)]
+                fl[(fn,) + combo] = thresholds[t.draw(len(thresholds))] + [0.00002, -0.00002, 0.0, 0.002, -0.002, 0.00002][t.draw(6)]
             else:
                 fl[(fn,) + combo] = t.num()
     goal = []
